@@ -36,12 +36,9 @@ var txUncommitted = map[string][]string{
 	"Invoke v0":        {"Nonce", "SenderAddress", "ResourceBounds", "Tip", "PaymasterData", "AccountDeploymentData", "NonceDAMode", "FeeDAMode", "ProofFacts"},
 	"Invoke v1":        {"ContractAddress", "EntryPointSelector", "ResourceBounds", "Tip", "PaymasterData", "AccountDeploymentData", "NonceDAMode", "FeeDAMode", "ProofFacts"},
 	"Invoke v3":        {"MaxFee", "ContractAddress", "EntryPointSelector"},
-	"Declare v0":       {"ClassHash", "SenderAddress", "MaxFee", "Nonce", "CompiledClassHash", "ResourceBounds", "Tip", "PaymasterData", "AccountDeploymentData", "NonceDAMode", "FeeDAMode"},
 	"Declare v1":       {"CompiledClassHash", "ResourceBounds", "Tip", "PaymasterData", "AccountDeploymentData", "NonceDAMode", "FeeDAMode"},
 	"Declare v2":       {"ResourceBounds", "Tip", "PaymasterData", "AccountDeploymentData", "NonceDAMode", "FeeDAMode"},
 	"Declare v3":       {"MaxFee"},
-	"Deploy v0":        {"ContractAddressSalt", "ContractAddress", "ClassHash", "ConstructorCallData", "Version"},
-	"Deploy v1":        {"ContractAddressSalt", "ContractAddress", "ClassHash", "ConstructorCallData", "Version"},
 	"DeployAccount v1": {"ResourceBounds", "Tip", "PaymasterData", "NonceDAMode", "FeeDAMode"},
 	"DeployAccount v3": {"MaxFee"},
 	"L1Handler v0":     {},
@@ -127,10 +124,25 @@ func uncommitted(s site, mut string, orig, tampered *lib.Bundle) (bool, string) 
 }
 
 // knownRootCause maps accepted tamperings that share one cause in juno to one stable Sig.
+var (
+	reDeclareV0  = regexp.MustCompile(`^field:\.Block\.Transactions\[\]<Declare v[123]>\.Version:zero$`)
+	reL1NoNonce  = regexp.MustCompile(`^field:\.Block\.Transactions\[\]<L1Handler v0>\.Nonce:setnil$`)
+	reDeployAny  = regexp.MustCompile(`^field:\.Block\.Transactions\[\]<Deploy v[01]>\.`)
+	reDeclareV0F = regexp.MustCompile(`^field:\.Block\.Transactions\[\]<Declare v0>\.`)
+)
+
+// knownRootCause maps accepted tamperings that share one cause in juno to one stable Sig.
 func knownRootCause(tc tamperCase, orig *lib.Bundle) (string, string) {
-	if m := regexp.MustCompile(`^field:\.Block\.Transactions\[\]<Declare v[123]>\.Version:zero$`).FindString(tc.Name); m != "" {
+	switch {
+	case reDeclareV0.MatchString(tc.Name), reDeclareV0F.MatchString(tc.Name):
 		return "declare-version-set-to-0-skips-tx-hash-verification",
-			"a Declare transaction whose Version is changed to 0 is no longer hash-verified (declareTransactionHash returns the declared hash for version 0), so the block is stored with a transaction that does not match its hash"
+			"a Declare transaction whose Version is (changed to) 0 is not hash-verified in a block of any protocol version (declareTransactionHash returns the declared hash for version 0), so the block is stored with a transaction that does not match its hash"
+	case reL1NoNonce.MatchString(tc.Name):
+		return "l1handler-nonce-removed-skips-tx-hash-verification",
+			"an L1-handler transaction whose Nonce is removed (nil) is not hash-verified in a block of any protocol version (l1HandlerTransactionHash returns the declared hash), so the block is stored with a transaction that does not match its hash"
+	case reDeployAny.MatchString(tc.Name), tc.Name == "compound:tx-replaced-by-legacy-deploy":
+		return "legacy-deploy-tx-hash-never-verified",
+			"the hash of a legacy Deploy transaction is never recomputed, in a block of any protocol version (core.TransactionHash returns the declared hash): its fields can be changed, and any transaction with an empty signature can be replaced by an arbitrary Deploy transaction carrying the same hash, and the block is stored"
 	}
 	return "", ""
 }
@@ -367,6 +379,17 @@ func compoundCases(g *lib.ChainGen, idx int) []tamperCase {
 		c.Block.Receipts[i].TransactionHash = &h2
 		add("txfield+recomputed-txhash", fmt.Sprintf("tx %d (%s) %s changed, hash recomputed", i, txKindOf(tx), what), c)
 	}
+	for i, tx := range b.Block.Transactions {
+		if _, isDeploy := tx.(*core.DeployTransaction); isDeploy || len(tx.Signature()) != 0 {
+			continue
+		}
+		c := b.Clone()
+		h := *tx.Hash()
+		c.Block.Transactions[i] = &core.DeployTransaction{TransactionHash: &h, ContractAddressSalt: lib.F(1), ContractAddress: lib.F(2),
+			ClassHash: lib.F(3), ConstructorCallData: []felt.Felt{*lib.F(4)}, Version: new(core.TransactionVersion).SetUint64(0)}
+		add("tx-replaced-by-legacy-deploy", fmt.Sprintf("tx %d (%s, empty signature) replaced by a legacy Deploy transaction with the same hash", i, txKindOf(tx)), c)
+		break
+	}
 	if nt >= 2 {
 		c := b.Clone()
 		c.Block.Transactions[0], c.Block.Transactions[1] = c.Block.Transactions[1], c.Block.Transactions[0]
@@ -564,6 +587,17 @@ type chainTask struct {
 	Chain  int  `json:"chain"`
 	SrcNew bool `json:"src_new_state"`
 	DstNew bool `json:"dst_new_state"`
+	// Slot selects the tamper position of this task: 0 = genesis, 1 = middle, 2 = last block
+	// (thorough tier: slot k = block k). The other blocks are stored untampered.
+	Slot int `json:"slot"`
+}
+
+// tamperSlots is the number of tamper positions (= tasks) per chain and backend.
+func tamperSlots(f lib.Flags) int {
+	if f.Thorough() {
+		return f.Scale(6, 9)
+	}
+	return 3
 }
 
 type replay struct {
@@ -593,6 +627,18 @@ func buildChain(f lib.Flags, task chainTask) (*lib.ChainGen, error) {
 			vi = len(opt.Versions) - 1
 		}
 		spec.Version = opt.Versions[vi]
+		if i == (n-1)/2 {
+			// the middle block (a tamper position) carries one transaction of every kind and version
+			seen := map[string]bool{}
+			for draws := 0; draws < 400 && len(seen) < 11; draws++ {
+				tx := g.GenTx(spec.Version)
+				if k := txKindOf(tx); !seen[k] {
+					seen[k] = true
+					spec.Txs = append(spec.Txs, tx)
+					spec.Rcs = append(spec.Rcs, g.GenReceipt(tx))
+				}
+			}
+		}
 		if _, err := g.Next(spec); err != nil {
 			return nil, err
 		}
@@ -635,11 +681,11 @@ func runTask(f lib.Flags, res *lib.Result, task chainTask, only *replay) {
 		backend = "new"
 	}
 	last := len(g.Bundles) - 1
-	tamperAt := map[int]bool{0: true, last / 2: true, last: true}
+	tamperAt := map[int]bool{}
 	if f.Thorough() {
-		for i := range g.Bundles {
-			tamperAt[i] = true
-		}
+		tamperAt[task.Slot] = true
+	} else {
+		tamperAt[[]int{0, last / 2, last}[task.Slot%3]] = true
 	}
 	violate := func(sig, what string, rp replay) {
 		rp.Task, rp.Seed, rp.Tier = task, f.Seed, f.Tier
@@ -756,7 +802,7 @@ func runTask(f lib.Flags, res *lib.Result, task chainTask, only *replay) {
 		}
 	}
 	// the chain the node ended with is the generated one: compare the head state with the abstract state
-	if only == nil {
+	if only == nil && task.Slot == 0 {
 		checkHeadState(res, n, g, task)
 	}
 }
